@@ -22,6 +22,7 @@ import Hdl21Model.Drv.InstBundle
 import Hdl21Model.Drv.ArrayPass
 import Hdl21Model.Drv.NameEnc
 import Hdl21Model.Drv.Orphanage
+import Hdl21Model.Drv.BundleConn
 open Lean
 
 /-- Line protocol: one JSON object per input line `{"prop": "C03", "op": ..., ...}`,
@@ -54,6 +55,7 @@ def dispatch (j : Json) : Except String Json := do
   | "AP" => Hdl21.Drv.ArrayPass.handle op j
   | "NE" => Hdl21.Drv.NameEnc.handle op j
   | "OR" => Hdl21.Drv.Orphanage.handle op j
+  | "BC" => Hdl21.Drv.BundleConn.handle op j
   | "SEM" => Hdl21.Drv.Sem.handle op j
   | _ => .error s!"unknown prop {prop}"
 
